@@ -1,8 +1,7 @@
 //! pzv-serde: C18 — serialisation round-trips, and rejects damaged input without corruption.
 #![allow(clippy::too_many_arguments, clippy::needless_range_loop, clippy::type_complexity)]
 
-pub mod c18;
-pub mod c18b;
+use pzv_serde::{c18, c18b};
 
 use pzv_common::driver::{Ctx, install_panic_hook, read_replay};
 
@@ -12,6 +11,39 @@ fn main() {
     if args.is_empty() {
         eprintln!("usage: pzv-serde C18 [quick|thorough] | replay <file>");
         std::process::exit(2);
+    }
+    if args[0] == "gen-corpus" {
+        // seed corpus of the coverage-guided target (/verif/fuzz): header + valid stream per type and shape
+        let dir = std::path::PathBuf::from(&args[1]);
+        std::fs::create_dir_all(&dir).unwrap();
+        let files = c18::fuzz_seed_corpus();
+        for (name, bytes) in &files {
+            std::fs::write(dir.join(name), bytes).unwrap();
+        }
+        println!("{} seed files", files.len());
+        return;
+    }
+    if args[0] == "replay-bytes" {
+        // a saved fuzz input (crash artifact), judged by the same oracle outside the fuzzer
+        let data = std::fs::read(&args[1]).unwrap();
+        let Some(c) = c18::case_from_fuzz_bytes(&data) else {
+            println!("input shorter than the 14-byte header: nothing to run");
+            return;
+        };
+        match c18::test(&c) {
+            pzv_common::driver::Verdict::Fail { sig, detail } => {
+                println!("VIOLATION property=C18 replay={}", args[1]);
+                println!("  subcheck=fuzz_stream signature={sig}");
+                for l in detail.lines().take(6) {
+                    println!("  | {l}");
+                }
+                std::process::exit(1);
+            }
+            _ => {
+                println!("[C18] replay {}: property held", args[1]);
+                return;
+            }
+        }
     }
     if args[0] == "replay" {
         let (prop, sub, case) = read_replay(&args[1]);
